@@ -278,6 +278,13 @@ inductive Action
   | watch
   deriving DecidableEq, Repr, Hashable
 
+/-- the frame types the three tickers write (`keepAlive`, `keepAlivePongOnly`, `ping`) -/
+def isTickKind : MT → Bool
+  | .keepAlive => true
+  | .pong => true
+  | .ping => true
+  | _ => false
+
 def findOp (s : State) (inst : Nat) : Option Op := s.ops.find? (fun o => o.inst == inst)
 
 /-- the step function: `none` = not enabled -/
@@ -325,7 +332,7 @@ def fire (cfg : Cfg) (a : Action) (s : State) : Option State :=
       then some (opFinish cfg o .normal s) else none
     | none => none
   | .tick t =>
-    if s.initialised && cfg.ticks.contains t then some (write cfg t "" "-" s) else none
+    if s.initialised && cfg.ticks.contains t && isTickKind t then some (write cfg t "" "-" s) else none
   | .watch =>
     if s.initialised && (s.connCancelled || s.runCancelled) then
       match s.wpc with
